@@ -5,7 +5,8 @@
    inverse, norm) and by the defining identities checked on the implementation.
    Only `exact` proofs here. *)
 From Coq Require Import List Arith Ring.
-From ND Require Import Tactics LinAlg C12_proofs C12_lu C12_inv.
+From Coq Require Import Permutation Reals.
+From ND Require Import Tactics LinAlg C12_proofs C12_lu C12_inv C12_jacobi.
 From NDgen Require Import Classes.
 Local Open Scope R_scope.
 
@@ -99,6 +100,33 @@ Theorem C12_inverse_Dual : forall (A : list (list (Dual R))) l, is_mat (length A
     sum_list (fun c => (mg A i c * mg (lu_inverse l) c j)%rs) (range 0 (length A)) = (if Nat.eqb i j then (Overload.one : Dual R) else (Overload.zero : Dual R)).
 Proof. exact (inverse_correct RT_Dual (fun d => m_re d <> 0) div_mul_Dual nz_zero_R pu_Dual). Qed.
 
+(* jacobi_eigenvalue (hand model, executed in Coq against the implementation on the scalar and nested types): the final selection sort returns the
+   eigenvalues in ASCENDING order of their real parts and applies one permutation to the eigenvalues and to the columns of the eigenvector matrix.
+   Generic in the number type (premise: the order test of its scalar type is the order of the reals - true of FL_R); then for the five scalar types, for
+   the whole function, any matrix, any iteration limit. *)
+Theorem C12_sort_correct : forall (T : Type) (dn : DN R T),
+  (forall a b : R, (hltb (HLtb:=fl_ltb (FL:=dn_fl (T:=T))) a b) = true <-> (a < b)%R) ->
+  forall n (d : list T) (v : list (list T)), length d = n -> List.Forall (fun row => length row = n) v ->
+    let '(d', v') := j_sort n d v in
+    (forall i j, (i <= j < n)%nat -> ((m_re (vg d' i) : R) <= (m_re (vg d' j) : R))%R) /\
+    exists sigma, Permutation sigma (seq 0 n) /\ d' = map (fun i => vg d i) sigma /\ v' = map (fun row => map (fun i => nth i row (Overload.zero : T)) sigma) v.
+Proof. exact (fun T dn H => j_sort_correct (T:=T) H). Qed.
+Theorem C12_jacobi_sorted_Dual : forall (a : list (list (Dual R))) max_iter, let n := length a in
+  let '(d, v) := jacobi_eigenvalue a max_iter in forall i j, (i <= j < n)%nat -> (Dual_f_re (vg d i) <= Dual_f_re (vg d j))%R.
+Proof. exact jacobi_sorted_Dual. Qed.
+Theorem C12_jacobi_sorted_Dual2 : forall (a : list (list (Dual2 R))) max_iter, let n := length a in
+  let '(d, v) := jacobi_eigenvalue a max_iter in forall i j, (i <= j < n)%nat -> (Dual2_f_re (vg d i) <= Dual2_f_re (vg d j))%R.
+Proof. exact jacobi_sorted_Dual2. Qed.
+Theorem C12_jacobi_sorted_Dual3 : forall (a : list (list (Dual3 R))) max_iter, let n := length a in
+  let '(d, v) := jacobi_eigenvalue a max_iter in forall i j, (i <= j < n)%nat -> (Dual3_f_re (vg d i) <= Dual3_f_re (vg d j))%R.
+Proof. exact jacobi_sorted_Dual3. Qed.
+Theorem C12_jacobi_sorted_HyperDual : forall (a : list (list (HyperDual R))) max_iter, let n := length a in
+  let '(d, v) := jacobi_eigenvalue a max_iter in forall i j, (i <= j < n)%nat -> (HyperDual_f_re (vg d i) <= HyperDual_f_re (vg d j))%R.
+Proof. exact jacobi_sorted_HyperDual. Qed.
+Theorem C12_jacobi_sorted_HyperHyperDual : forall (a : list (list (HyperHyperDual R))) max_iter, let n := length a in
+  let '(d, v) := jacobi_eigenvalue a max_iter in forall i j, (i <= j < n)%nat -> (HyperHyperDual_f_re (vg d i) <= HyperHyperDual_f_re (vg d j))%R.
+Proof. exact jacobi_sorted_HyperHyperDual. Qed.
+
 (* a pivot column whose real parts all vanish is reported *)
 Theorem C12_singular_detected : forall (l : lu (T:=Dual R)) n i, (forall k, m_re (m_abs (mg (lu_a l) k i)) = 0) -> lu_step (Some l) n i = None.
 Proof. exact singular_detected. Qed.
@@ -107,5 +135,5 @@ Proof. exact singular_detected. Qed.
 Example C12_example : forall i, (i < 2)%nat -> m_re (mg ((mkDual 2 1 :: mkDual 1 0 :: nil) :: (mkDual 0.5 0 :: mkDual 3 1 :: nil) :: nil) i i) <> 0.
 Proof. exact example_c12. Qed.
 
-Definition C12_bundle := (@C12_forward_substitution, @C12_back_substitution, @C12_solve_is_both, C12_rings, C12_units, C12_solve_Dual, C12_singular_detected, @C12_factorisation, @C12_solve_correct, C12_Ax_eq_b_Dual, C12_Ax_eq_b_Dual2, C12_Ax_eq_b_Dual3, C12_Ax_eq_b_HyperDual, C12_Ax_eq_b_HyperHyperDual, @C12_inverse_column, @C12_inverse_correct, C12_inverse_Dual).
+Definition C12_bundle := (@C12_forward_substitution, @C12_back_substitution, @C12_solve_is_both, C12_rings, C12_units, C12_solve_Dual, C12_singular_detected, @C12_factorisation, @C12_solve_correct, C12_Ax_eq_b_Dual, C12_Ax_eq_b_Dual2, C12_Ax_eq_b_Dual3, C12_Ax_eq_b_HyperDual, C12_Ax_eq_b_HyperHyperDual, @C12_inverse_column, @C12_inverse_correct, C12_inverse_Dual, C12_sort_correct, C12_jacobi_sorted_Dual, C12_jacobi_sorted_Dual2, C12_jacobi_sorted_Dual3, C12_jacobi_sorted_HyperDual, C12_jacobi_sorted_HyperHyperDual).
 Print Assumptions C12_bundle.
